@@ -106,6 +106,7 @@ impl<Key, Value> Store<Key, Value>
     }
 
     pub(crate) fn put(&self, key: Key, value: Value, key_id: KeyId) {
+        #[cfg(cached_verif)] crate::cache::verif::lock_touch(&self.store as *const _ as i64, 1);
         self.store.insert(key, StoredValue::never_expiring(value, key_id));
         self.stats_counter.add_key();
     }
@@ -114,6 +115,7 @@ impl<Key, Value> Store<Key, Value>
         let stored_value = StoredValue::expiring(value, key_id, time_to_live, &self.clock);
         let expire_after = stored_value.expire_after();
 
+        #[cfg(cached_verif)] crate::cache::verif::lock_touch(&self.store as *const _ as i64, 1);
         self.store.insert(key, stored_value);
         self.stats_counter.add_key();
 
@@ -121,6 +123,7 @@ impl<Key, Value> Store<Key, Value>
     }
 
     pub(crate) fn delete(&self, key: &Key) -> Option<KeyIdExpiry> {
+        #[cfg(cached_verif)] crate::cache::verif::lock_touch(&self.store as *const _ as i64, 1);
         if let Some(pair) = self.store.remove(key) {
             self.stats_counter.delete_key();
             #[cfg(cached_verif)] crate::cache::verif::event("store_removed", &[pair.1.key_id() as i64]);
@@ -130,6 +133,7 @@ impl<Key, Value> Store<Key, Value>
     }
 
     pub(crate) fn mark_deleted(&self, key: &Key) {
+        #[cfg(cached_verif)] crate::cache::verif::lock_touch(&self.store as *const _ as i64, 1);
         if let Some(mut pair) = self.store.get_mut(key) {
             let stored_value = pair.value_mut();
             stored_value.is_soft_deleted = true;
@@ -143,6 +147,7 @@ impl<Key, Value> Store<Key, Value>
     }
 
     pub(crate) fn update(&self, key: &Key, value: Option<Value>, time_to_live: Option<Duration>, remove_time_to_live: bool) -> UpdateResponse<Value> {
+        #[cfg(cached_verif)] crate::cache::verif::lock_touch(&self.store as *const _ as i64, 1);
         if let Some(mut existing_value) = self.store.get_mut(key) {
             let existing_expiry = existing_value.expire_after();
             let new_expiry = existing_value.update(value, time_to_live, remove_time_to_live, &self.clock);
@@ -158,6 +163,7 @@ impl<Key, Value> Store<Key, Value>
     }
 
     pub(crate) fn clear(&self) {
+        #[cfg(cached_verif)] crate::cache::verif::lock_touch(&self.store as *const _ as i64, 1);
         self.store.clear();
     }
 
@@ -166,11 +172,13 @@ impl<Key, Value> Store<Key, Value>
     }
 
     pub(crate) fn is_present(&self, key: &Key) -> bool {
+        #[cfg(cached_verif)] crate::cache::verif::lock_touch(&self.store as *const _ as i64, 0);
         let maybe_value = self.store.get(key);
         maybe_value.is_some()
     }
 
     fn contains(&self, key: &Key) -> Option<KeyValueRef<Key, StoredValue<Value>>> {
+        #[cfg(cached_verif)] crate::cache::verif::lock_touch(&self.store as *const _ as i64, 0);
         let maybe_value = self.store.get(key);
         maybe_value
             .filter(|stored_value| stored_value.is_alive(&self.clock))
@@ -182,6 +190,7 @@ impl<Key, Value> Store<Key, Value>
     where Key: Hash + Eq,
           Value: Clone, {
     pub(crate) fn get(&self, key: &Key) -> Option<Value> {
+        #[cfg(cached_verif)] crate::cache::verif::lock_touch(&self.store as *const _ as i64, 0);
         let maybe_value = self.store.get(key);
         let mapped_value = maybe_value
             .filter(|stored_value| stored_value.is_alive(&self.clock))
@@ -195,6 +204,8 @@ impl<Key, Value> Store<Key, Value>
 #[cfg(cached_verif)]
 impl<Key, Value> Store<Key, Value>
     where Key: Hash + Eq, {
+    pub(crate) fn verif_lock_id(&self) -> i64 { &self.store as *const _ as i64 }
+
     pub(crate) fn verif_entries(&self, key_fn: &dyn Fn(&Key) -> i64, value_fn: &dyn Fn(&Value) -> i64) -> Vec<crate::cache::verif::StoreEntry> {
         self.store.iter().map(|pair| crate::cache::verif::StoreEntry {
             key: key_fn(pair.key()),
